@@ -82,7 +82,9 @@ fn copies_agree<const D: usize>(t: &Tensor<i64, D>) -> bool {
     }
     let mut d = Tensor::<i64, D>::new(other, 0);
     d.clone_from(t);
-    [c, d].iter().all(|u| u.dims() == t.dims() && u.iter().eq(t.iter()) && u == t && t == u)
+    let same = [c, d].iter().all(|u| u.dims() == t.dims() && u.iter().eq(t.iter()) && u == t && t == u);
+    // ... and the consuming iterator yields the elements in storage order
+    same && t.clone().into_iter().eq(t.iter().copied())
 }
 
 fn run<const D: usize>(t: &[&str]) -> String {
